@@ -638,7 +638,12 @@ func (c *compiler) arrayOperator(l interface{}, r interface{}, op string) (inter
 		}
 		if err == nil {
 			// hand out the slice itself, not the reflect.Value wrapper (whose own methods would be callable from templates)
-			return reflect.Append(reflect.ValueOf(l), reflect.ValueOf(r)).Interface(), nil
+			// and build it in a backing array of its own: appending in place would overwrite
+			// what an earlier result of + on the same slice, or the slice's owner, still sees
+			lv := reflect.ValueOf(l)
+			nv := reflect.MakeSlice(lv.Type(), lv.Len(), lv.Len()+1)
+			reflect.Copy(nv, lv)
+			return reflect.Append(nv, reflect.ValueOf(r)).Interface(), nil
 		}
 	default:
 		err = fmt.Errorf("unkown operator (%s) on %T and %T ", op, l, r)
